@@ -86,6 +86,7 @@ type analyzer struct {
 	goRoots      map[string][]bool          // function started with go -> for every go statement: on an object created in that function?
 	escaped      map[string]bool            // closures that are stored or passed on: they run in an unknown goroutine
 	config       []string
+	alias        map[string]*ast.SelectorExpr // local variable -> the slice/map-typed field whose contents it shares
 }
 
 func (a *analyzer) edge(from, to string) {
@@ -307,6 +308,12 @@ func (a *analyzer) expr(e ast.Expr, L lockset, write bool) {
 	case nil:
 	case *ast.Ident:
 		a.recordGlobal(v, L, write)
+		if se, ok := a.alias[v.Name]; ok {
+			// the local variable shares the backing store of the field it was copied from
+			if _, isLocal := a.info.Uses[v].(*types.Var); isLocal {
+				a.recordAccess(se, L, write)
+			}
+		}
 	case *ast.SelectorExpr:
 		a.recordAccess(v, L, write)
 		if sel, ok := a.info.Selections[v]; ok && sel.Kind() == types.MethodVal {
@@ -491,6 +498,36 @@ func (a *analyzer) noteFresh(lhs []ast.Expr, rhs []ast.Expr) {
 	}
 }
 
+// noteAlias: x := recv.field (or a slice of it) where the field is a slice, map or pointer: x aliases the field's contents
+func (a *analyzer) noteAlias(lhs []ast.Expr, rhs []ast.Expr) {
+	if len(lhs) != len(rhs) {
+		return
+	}
+	for i, r := range rhs {
+		id, ok := lhs[i].(*ast.Ident)
+		if !ok || id.Name == "_" {
+			continue
+		}
+		delete(a.alias, id.Name)
+		x := r
+		if sl, ok := x.(*ast.SliceExpr); ok {
+			x = sl.X
+		}
+		se, ok := x.(*ast.SelectorExpr)
+		if !ok {
+			continue
+		}
+		sel, ok := a.info.Selections[se]
+		if !ok || sel.Kind() != types.FieldVal {
+			continue
+		}
+		switch sel.Type().Underlying().(type) {
+		case *types.Slice, *types.Map:
+			a.alias[id.Name] = se
+		}
+	}
+}
+
 func (a *analyzer) stmts(list []ast.Stmt, L lockset) lockset {
 	for _, s := range list {
 		L = a.stmt(s, L)
@@ -584,11 +621,8 @@ func (a *analyzer) stmt(s ast.Stmt, L lockset) lockset {
 		for _, r := range v.Rhs {
 			a.expr(r, L, false)
 		}
-		if v.Tok == token.DEFINE {
-			a.noteFresh(v.Lhs, v.Rhs)
-		} else {
-			a.noteFresh(v.Lhs, v.Rhs)
-		}
+		a.noteFresh(v.Lhs, v.Rhs)
+		a.noteAlias(v.Lhs, v.Rhs)
 		for _, l := range v.Lhs {
 			if v.Tok != token.ASSIGN && v.Tok != token.DEFINE {
 				a.expr(l, L, false) // op-assignment reads too
@@ -708,6 +742,7 @@ func (a *analyzer) analyzeFuncs(files []*ast.File) {
 			a.curFn = name
 			a.litN = 0
 			a.fresh = map[string]bool{}
+			a.alias = map[string]*ast.SelectorExpr{}
 			L := lockset{}
 			if e := a.entry[fn]; e != nil {
 				L = e.clone()
